@@ -35,5 +35,7 @@ def check(tier, seed):
     d.add_callsite_witness("callsite:illposed/biorthonormality-test-uses-atol-only", "bd_battery.py", "ortho_rtol_finding",
                            "the (bi)orthonormality test has no tolerance besides atol (the contract of _check_biorthonormality treats np.allclose as an opaque predicate of overlap, identity and atol; "
                            "its hidden default rtol is outside that contract); the witness is replayed on every run")
+    d.add_callsite_witness("callsite:illposed/operator-valued-non-Hermitian-input-is-rejected-in-Hermitian-mode", "bd_battery.py", "sqherm_finding",
+                           "symbolic input that is not Hermitian is rejected in Hermitian mode also when it contains second-quantized operators; the witness is replayed on every run")
     d.run_battery("bd_battery.py", ["illposed"], "fixed list of ill-posed input classes x request orders x outputs x modes on 2-4 dimensional problems; see replay/bd_battery.py")
     return d.finish(level="proof", trusted_base=["contracts/sylvester.py", "contracts/bd_masks.py", "pyvc/pw.py"])
